@@ -254,6 +254,16 @@ class DimSystem:
     def _mask(self, lin, keep):
         return Lin(tuple(x if i in keep else self.zero for i, x in enumerate(lin.c)), lin.t)
 
+    def note_prescribed(self, d):
+        if not hasattr(self, 'prescribed_units'):
+            self.prescribed_units = set()
+        try:
+            for ui in range(len(self.units)):
+                if d.c[ui] != self.zero:
+                    self.prescribed_units.add(ui)
+        except Exception:
+            pass
+
     def no_carrier(self):
         """Units that no input can carry.  For a base unit U that appears in no
         non-output constraint (no point/time/prescribed dimension mentions it:
@@ -272,6 +282,8 @@ class DimSystem:
         for ui, u in enumerate(self.units):
             if any((e[2].c[ui] != self.zero) or (e[3].c[ui] != self.zero) for e in nonout):
                 continue
+            if ui in getattr(self, 'prescribed_units', ()):
+                continue      # some input is prescribed to carry this unit: an ordinary mismatch
             saved = (self.subst, self.inconsistencies)
             self.subst, self.inconsistencies = {}, []
             try:
@@ -460,6 +472,10 @@ class DimEval:
         self.unknown_ext = {}
         self.pow_unresolved = []
         self.pending_mu = []
+        # units carried by a PRESCRIBED input / parameter / constant dimension: an input does carry them
+        for tbl in (self.input_dims, self.param_dims, self.const_dims):
+            for d in tbl.values():
+                self.S.note_prescribed(d)
 
     # -- rational value of dimensionless expressions -------------------------
     def ratval(self, n):
